@@ -1,5 +1,5 @@
 CONSTANTS
-  Rotations = {0, 22}
+  Rotations = {0, 22, 24}
   Widths = {1}
   TransportSets = {{"grpc"}, {"rest"}, {"grpc", "rest"}}
   Namings = {"svchost"}
